@@ -751,6 +751,9 @@ def panic_message(err):
     return m.group(1), int(m.group(2)), msg[:70]
 
 
+_FRAME_CACHE = {}
+
+
 def innermost_frame(err_bt):
     """First libwild/linker-utils frame of a RUST_BACKTRACE=1 dump, else first non-std frame."""
     frames = re.findall(r"^\s*\d+: (.+)\n\s+at (\S+)", err_bt, re.M)
@@ -942,10 +945,19 @@ class C22(Check):
         err = res.err
         if "panicked at" in err or res.rc == 101:
             file, line, msg = panic_message(err)
-            fn = None
-            if d is not None and argv is not None:
-                bt, _ = run_watched([core.WILD, *argv], d, {"RUST_BACKTRACE": "1", "WILD_VALIDATE_OUTPUT": "0"}, self.case_timeout)
-                fn = innermost_frame(bt.err)
+            fn = _FRAME_CACHE.get((file, line))
+            if fn is None and d is not None and argv is not None:
+                # The panic location determines the function for a given binary: symbolise once per worker.
+                for _attempt in range(3):   # several threads may fail at once: insist on the same panic
+                    # symbolising the dev binary's backtrace can take minutes on an oversubscribed machine
+                    bt = tools.run([core.WILD, *argv], cwd=d, env={"RUST_BACKTRACE": "1", "WILD_VALIDATE_OUTPUT": "0"},
+                                   timeout=600)
+                    f2, l2, _ = panic_message(bt.err)
+                    if (f2, l2) == (file, line):
+                        fn = innermost_frame(bt.err)
+                        if fn:
+                            _FRAME_CACHE[(file, line)] = fn
+                        break
             sig = f"panic:{fn or file}:{msg}"
             detail = dict(detail)
             detail["panic_at"] = f"{file}:{line}"
